@@ -257,6 +257,9 @@ pub enum Tamper {
     Foreign,
     /// flip one bit of the given region after building: 0 mhdr-mtype,1 devaddr,2 fctrl,3 fcnt,4 port,5 payload
     Flip(u8),
+    /// not tampered with at all: an authentic frame with FPending (and ADR) set, as a network with more
+    /// downlinks queued sends it
+    Pending,
 }
 
 #[derive(Clone, Debug, Serialize, Deserialize, PartialEq, Eq, Hash)]
@@ -291,6 +294,15 @@ pub struct Net {
     pub ref_last: Option<u32>,
     pub accepted: Vec<Vec<u8>>,
     pub delivered: Vec<Vec<u8>>,
+}
+
+/// The size limit the reference applies to a receive window. The device's own figure is used as long as it
+/// is one of the values the regional parameters admit for the window's modulation (RP002 revisions differ
+/// for a few rates); otherwise the regional table decides, so a wrong table entry shows as a frame wrongly
+/// dropped or wrongly acted on.
+pub fn ref_window_limit(region: &str, sf: u8, bw: u32, device_max: u8) -> u8 {
+    let adm: Vec<u8> = crate::refregion::dr_index(region, sf, bw).iter().flat_map(|d| crate::refregion::max_payload(region, *d)).collect();
+    if adm.is_empty() || adm.contains(&device_max) { device_max } else { *adm.iter().max().unwrap() }
 }
 
 /// The specification's freshness rule in u64: the unique N = wire (mod 2^16) with
@@ -344,10 +356,10 @@ impl Net {
                 let mut d = DataDesc {
                     mtype,
                     devaddr: self.devaddr,
-                    adr: false,
+                    adr: matches!(tamper, Tamper::Pending),
                     adr_ack_req: false,
                     ack: *ack,
-                    f_pending: false,
+                    f_pending: matches!(tamper, Tamper::Pending),
                     fcnt: n,
                     fopts: fopts.clone(),
                     fport: *port,
@@ -585,6 +597,10 @@ pub struct DevCfg {
     /// every call): a downlink then sits in the queue through the receive windows of the next uplink
     #[serde(default)]
     pub hold_downlinks: bool,
+    /// nb front-end: the board's millisecond clock at the end of the first transmission; later
+    /// transmissions end 1.5 s apart (None: the legacy constant 1000 ms)
+    #[serde(default)]
+    pub clock_start: Option<u32>,
 }
 
 impl DevCfg {
@@ -605,6 +621,7 @@ impl DevCfg {
             last_confirmed: None,
             pending: None,
             hold_downlinks: false,
+            clock_start: None,
         }
     }
     pub fn otaa(region: &str) -> DevCfg {
@@ -693,7 +710,7 @@ impl<const PW: u8, const GAIN: i8, const D: usize> NbCore<PW, GAIN, D> {
             log: vec![],
             fail_next: false,
             sync_tx: cfg.sync_tx,
-            tx_done_ms: 1000,
+            tx_done_ms: cfg.clock_start.unwrap_or(1000),
             offset_ms: cfg.offset_ms,
             duration_ms: cfg.duration_ms,
         }));
@@ -723,7 +740,7 @@ impl<const PW: u8, const GAIN: i8, const D: usize> NbCore<PW, GAIN, D> {
         if let Some(a) = cfg.adr {
             dev.set_adr(a);
         }
-        NbCore { dev, radio, rng, net, cfg: cfg.clone(), dead: None, tx_done_ms: 1000 }
+        NbCore { dev, radio, rng, net, cfg: cfg.clone(), dead: None, tx_done_ms: cfg.clock_start.unwrap_or(1000) }
     }
 
     pub fn snap(&self) -> VerifMac {
@@ -768,6 +785,10 @@ impl<const PW: u8, const GAIN: i8, const D: usize> NbCore<PW, GAIN, D> {
             }
             Ev::TxDone => {
                 let ms = self.tx_done_ms;
+                if self.cfg.clock_start.is_some() {
+                    self.tx_done_ms = ms.wrapping_add(1500);
+                    self.radio.borrow_mut().tx_done_ms = self.tx_done_ms;
+                }
                 catch(|| resp_of(dev.handle_event(Event::RadioEvent(REvent::Phy(NbPhyEvent::TxDone(ms))))))
             }
             Ev::Timeout => catch(|| resp_of(dev.handle_event(Event::TimeoutFired))),
@@ -778,7 +799,8 @@ impl<const PW: u8, const GAIN: i8, const D: usize> NbCore<PW, GAIN, D> {
                 };
                 let max = match dev.verif_state() {
                     VerifNbState::WaitingForRx { rx1, rx2, window, .. } => {
-                        if window == 1 { rx1.3 } else { rx2.3 }
+                        let w = if window == 1 { rx1 } else { rx2 };
+                        ref_window_limit(&self.cfg.region, w.1, w.2, w.3)
                     }
                     _ => 0,
                 };
